@@ -77,12 +77,33 @@ func runBridge(r *rc) {
 					r.Describe(rendered)
 					r.Begin(key)
 					vm := base.Copy()
+					vm.SetStackDepthLimit(apiStackLimit) // set-self makes the container cyclic
 					if err := installBridged(vm, map[string]bool{b: true}); err != nil {
 						r.End()
 						r.HarnessError(err.Error())
 						return
 					}
 					res := ox.Run(vm, src)
+					if !res.Panicked {
+						// the Go side looks at the bridged value afterwards
+						if g := ox.Guard(func() (otto.Value, error) {
+							v, err := vm.Get(bridgedName(b))
+							if err != nil {
+								return v, err
+							}
+							_, _ = v.Export()
+							_, _ = v.MarshalJSON()
+							_ = v.String()
+							if o := v.Object(); o != nil {
+								_ = o.Keys()
+								_ = o.KeysByParent()
+								_, _ = o.MarshalJSON()
+							}
+							return v, nil
+						}); g.Panicked {
+							res = g
+						}
+					}
 					post := ox.Run(vm, "1+1")
 					r.End()
 					r.Eval(!res.Panicked && res.Err == nil)
